@@ -8,8 +8,51 @@ import stat
 import subprocess
 from vlib import *  # noqa
 
-CFG = ('version = "2"\n[content]\nmax_lines = 4\nwarn_threshold = 0.5\n'
-       '[structure]\nmax_files = 3\nmax_dirs = 2\nmax_depth = 3\n')
+CFG_PLAIN = ('version = "2"\n[content]\nmax_lines = 4\nwarn_threshold = 0.5\n'
+             '[structure]\nmax_files = 3\nmax_dirs = 2\nmax_depth = 3\n')
+
+# every structure rule family: directory limits (global and per rule), deny / allow lists, directed
+# sibling rules (error and warn severity) and a sibling group.  Sibling rules are evaluated on the whole
+# scanned file list, so with --diff / --staged their results must be those of the full run.
+CFG_SIBLINGS = CFG_PLAIN + '''deny_extensions = [".js"]
+deny_files = ["Makefile"]
+[[structure.rules]]
+scope = "**"
+max_files = 4
+max_dirs = 3
+siblings = [
+  { match = "x.rs", require = "{stem}.md" },
+  { match = "*.py", require = "{stem}.rs" },
+  { match = "m.rs", require = "{stem}_test.rs", severity = "warn" },
+  { group = ["{stem}.js", "{stem}.css"] },
+]
+[[structure.rules]]
+scope = "lib/**"
+max_files = 2
+allow_extensions = [".rs", ".py", ".md"]
+siblings = [ { match = "*.rs", require = "{stem}.md" } ]
+'''
+
+CFG_SCOPED = CFG_PLAIN + '''deny_patterns = ["*.go"]
+[[structure.rules]]
+scope = "src/**"
+max_files = 2
+max_depth = 2
+relative_depth = true
+deny_extensions = [".txt"]
+siblings = [
+  { match = "*.rs", require = "{stem}.md" },
+  { group = ["{stem}.py", "{stem}.rs"], severity = "warn" },
+]
+[[structure.rules]]
+scope = "a/**"
+max_dirs = 1
+allow_files = ["m.rs", "x.rs", "x.md", "w.rs"]
+siblings = [ { match = "[mw].rs", require = "{stem}_test.rs" } ]
+'''
+
+CFGS = [CFG_PLAIN, CFG_SIBLINGS, CFG_SIBLINGS, CFG_SCOPED]
+CFG = CFG_PLAIN
 CFG_NAME = ".sloc-guard.toml"
 
 
@@ -119,7 +162,10 @@ class Repo:
 
 
 DIRS = ["", "", "src", "src", "lib", "a", "b c", "dé", "src/core", "src/core/deep", "a/b/c/d", "lib/x"]
-NAMES = ["m.rs", "x.rs", "y.rs", "z.py", "n.go", "notes.txt", "Makefile", "q r.rs", "ü.rs", "w.rs", "k.js", ".h.rs"]
+NAMES = ["m.rs", "x.rs", "y.rs", "z.py", "n.go", "notes.txt", "Makefile", "q r.rs", "ü.rs", "w.rs", "k.js", ".h.rs",
+         "x.md", "z.rs", "m_test.rs", "k.css"]
+# the partner a sibling rule of CFG_SIBLINGS / CFG_SCOPED asks for
+PARTNER = {"x.rs": "x.md", "z.py": "z.rs", "m.rs": "m_test.rs", "k.js": "k.css", "w.rs": "w_test.rs", "y.rs": "y.md"}
 
 
 def rand_content(rng, pool):
@@ -160,6 +206,19 @@ def mutate_worktree(rng, repo, pool, hist):
     def tagd(t):
         hist[t] = hist.get(t, 0) + 1
 
+    if files and rng.random() < 0.08:
+        # give a file the sibling its rule asks for, or take a sibling away
+        have = [f for f in files if os.path.basename(f) in PARTNER]
+        if have:
+            f = rng.choice(have)
+            q = os.path.join(os.path.dirname(f), PARTNER[os.path.basename(f)])
+            if not os.path.lexists(repo.abs(q)):
+                repo.do(["write", q, rand_content(rng, pool)])
+                tagd("sibling-add")
+            elif os.path.isfile(repo.abs(q)) and not os.path.islink(repo.abs(q)):
+                repo.do(["rm", q])
+                tagd("sibling-delete")
+            return
     if r < 0.22 or not files:
         p = free_path(rng, repo)
         if p:
@@ -248,7 +307,9 @@ def build_history(rng, repo, hist, commits_target):
     pool = []
     repo.do(["git", "init", "-q", "-b", "main"])
     cfgdir = repo.subdir or ""
-    repo.do(["write", os.path.join(cfgdir, CFG_NAME), CFG])
+    cfg = rng.choice(CFGS)
+    hist["config:" + {CFG_PLAIN: "limits-only", CFG_SIBLINGS: "siblings+lists", CFG_SCOPED: "scoped-rules"}[cfg]] = 1
+    repo.do(["write", os.path.join(cfgdir, CFG_NAME), cfg])
     ncommit, nbranch, ntag = 0, 0, 0
     branches = ["main"]
     steps = 0
